@@ -80,6 +80,9 @@ type TargetSpec struct {
 	// real-connection-manager family knows dialer names: "" and "alt" exist,
 	// anything else is an unknown dialer.
 	Dialers []string `json:"dialers,omitempty"`
+	// BadFirst: an Add with invalid arguments of that kind (see op "addbad")
+	// is issued for the name before its first valid Add.
+	BadFirst string `json:"bad_first,omitempty"`
 	// Reenter: the N-th callback of kind Cb calls Manager.Reconnect(name) itself
 	// before it returns (an application reacting to what it receives), unless
 	// the control goroutine is in the middle of a call of its own.
@@ -101,6 +104,9 @@ type Gate struct {
 // overlap: once the target's gate has closed, Remove is issued, and while it
 // is in progress (observed waiting inside Manager.Remove) a SECOND goroutine
 // calls X (add | remove | reconnect) for the same name; then the gate opens.
+// addbad: an Add of the name with invalid arguments, X = nilreq (nil subscribe
+// request) | noaddr (target without addresses) | niltarget | noname (empty
+// name): it must be refused whatever the state of the name and change nothing.
 // At < 0: issued when the target is inside a blocking dial / stream open.
 type Op struct {
 	T  int    `json:"t"`
@@ -741,7 +747,7 @@ func gapsOf(log []string, at []time.Time) []int64 {
 			have, havePrev, j = false, false, 0
 			xadd = true
 			continue
-		case "add+", "add-", "rcC", "rcR+", "rcR-", "rmC", "rmR-", "hang", "stall",
+		case "add+", "add-", "rcC", "rcR+", "rcR-", "rmC", "rmR-", "hang", "stall", "addbad+", "addbad-",
 			"gateC", "gateO", "xrmC", "xrmR+", "xrmR-", "xrcC", "xrcR+", "xrcR-":
 			continue
 		}
@@ -1034,8 +1040,34 @@ func control(m *manager.Manager, t *tgt, ops []Op) {
 			}
 		}
 	}
+	addbad := func(kind string) {
+		var err error
+		var ok bool
+		switch kind {
+		case "nilreq":
+			pt := protoTarget(t)
+			t.incar-- // not an incarnation
+			err, ok = guarded(func() error { return m.Add(t.name, pt, nil) })
+		case "niltarget":
+			err, ok = guarded(func() error { return m.Add(t.name, nil, sr) })
+		case "noname":
+			pt := protoTarget(t)
+			t.incar--
+			err, ok = guarded(func() error { return m.Add("", pt, sr) })
+		default: // noaddr
+			err, ok = guarded(func() error { return m.Add(t.name, &tpb.Target{}, sr) })
+		}
+		if ok {
+			t.ev("addbad"+pm(err == nil), false)
+		}
+	}
 	t.api.Lock()
-	add()
+	if t.spec.BadFirst != "" {
+		addbad(t.spec.BadFirst)
+	}
+	if !dead {
+		add()
+	}
 	t.api.Unlock()
 	for _, o := range ops {
 		if dead {
@@ -1075,6 +1107,8 @@ func control(m *manager.Manager, t *tgt, ops []Op) {
 			remove()
 		case "add":
 			add()
+		case "addbad":
+			addbad(o.X)
 		case "readd":
 			remove()
 			if !dead {
@@ -1141,6 +1175,10 @@ func evTerm(s string) string {
 		return "XReturned KReconnect true"
 	case "xrcR-":
 		return "XReturned KReconnect false"
+	case "addbad+":
+		return "EAddInvalid true"
+	case "addbad-":
+		return "EAddInvalid false"
 	case "hang":
 		return "EHang"
 	case "stall":
@@ -1426,6 +1464,21 @@ func campaignCases() []Case {
 		out = append(out, Case{Targets: []TargetSpec{{Hops: 1, TimeoutMs: tmo, Streams: st}}, Ops: []Op{{T: 0, At: 7, K: "remove"}}})
 		out = append(out, Case{Targets: []TargetSpec{{Hops: 1, Streams: st}}}) // no timeout: a plain 5 ms pause
 	}
+	// refused calls followed by calls on the same name and on other names: an
+	// Add refused for each reason the code has, before the first valid Add, while
+	// managed, and after Remove; then Add / Remove / Reconnect
+	for _, kind := range []string{"noaddr", "nilreq", "niltarget", "noname"} {
+		out = append(out, Case{Targets: []TargetSpec{
+			{Hops: 1, BadFirst: kind, Streams: []Stream{{"us", "eof"}, {"u", "hang"}}},
+			{Hops: 1, Dial: []bool{false, true}, Streams: []Stream{{"su", "err"}, {"", "hang"}}}},
+			Ops: []Op{{T: 0, At: 4, K: "addbad", X: kind}, {T: 0, At: 6, K: "reconnect"},
+				{T: 0, At: 9, K: "remove"}, {T: 0, K: "addbad", X: kind}, {T: 0, K: "remove"},
+				{T: 0, K: "reconnect"}, {T: 0, K: "add"}, {T: 1, At: 5, K: "addbad", X: kind},
+				{T: 1, At: 8, K: "readd"}}})
+		out = append(out, Case{Targets: []TargetSpec{{Hops: 1, BadFirst: kind, Streams: []Stream{{"u", "hang"}}}},
+			Ops: []Op{{T: 0, At: 0, K: "remove"}, {T: 0, K: "addbad", X: kind}, {T: 0, K: "add"},
+				{T: 0, At: 3, K: "addbad", X: kind}, {T: 0, At: 3, K: "add"}}})
+	}
 	// a callback that calls Reconnect for its own target before returning
 	for _, g := range []Gate{{"Connect", 1}, {"Update", 1}, {"Update", 2}, {"Sync", 1}, {"Reset", 1}, {"CE", 2}, {"ME", 1}} {
 		g2 := g
@@ -1457,6 +1510,9 @@ func prefixCases() []Case {
 
 func randSpec(r *vh.Rand) TargetSpec {
 	sp := TargetSpec{Hops: 1 + r.Pick(6, 3, 1), Creds: r.Chance(1, 4), DupAddr: r.Chance(1, 4)}
+	if r.Chance(1, 8) {
+		sp.BadFirst = []string{"noaddr", "nilreq", "niltarget", "noname"}[r.Intn(4)]
+	}
 	if r.Chance(1, 4) {
 		sp.TimeoutMs = tmo
 	} else if r.Chance(1, 4) {
@@ -1504,8 +1560,12 @@ func randCase(r *vh.Rand) Case {
 		at := 0
 		for j := 0; j < no; j++ {
 			at += r.Intn(14)
-			k := []string{"reconnect", "readd", "remove", "add"}[r.Pick(5, 3, 2, 2)]
-			c.Ops = append(c.Ops, Op{T: i, At: at, K: k})
+			k := []string{"reconnect", "readd", "remove", "add", "addbad"}[r.Pick(5, 3, 2, 2, 2)]
+			o := Op{T: i, At: at, K: k}
+			if k == "addbad" {
+				o.X = []string{"noaddr", "nilreq", "niltarget", "noname"}[r.Intn(4)]
+			}
+			c.Ops = append(c.Ops, o)
 		}
 		if c.DialTimeoutMs > 0 {
 			// an address that is unreachable for a while: those dials block
@@ -1708,7 +1768,7 @@ func gorLen(tr []string) int {
 	for _, e := range tr {
 		switch e {
 		case "addC", "add+", "add-", "rcC", "rcR+", "rcR-", "rmC", "rmR+", "rmR-", "hang", "stall",
-			"gateC", "gateO", "xaddC", "xadd+", "xadd-", "xrmC", "xrmR+", "xrmR-", "xrcC", "xrcR+", "xrcR-":
+			"addbad+", "addbad-", "gateC", "gateO", "xaddC", "xadd+", "xadd-", "xrmC", "xrmR+", "xrmR-", "xrcC", "xrcR+", "xrcR-":
 		default:
 			n++
 		}
@@ -1728,7 +1788,7 @@ func main() {
 	manager.RetryRandomization = 0.5
 	manager.VerifSetSubscribeClient(openStream)
 
-	meta := vh.NewMeta("corpus cases; systematic family: single-target fault scripts (dial refusal, credentials / open / send failure, multi-hop, data then error / EOF, hang with and without receive timeout, slow live stream; seven single-target fault scripts in all, the seventh with a receive timer that is armed but cannot expire), each alone and with one Reconnect, one Remove and one Remove+Add placed at every position (quick: every second position of long logs) of the script's baseline log, a third of them with slow callbacks (a callback is logged when it returns); overlap family: two scripts x a held callback (each kind, first or second occurrence) x {Add, Remove, Reconnect} of the same name issued by a second goroutine while the first one's Remove is in progress (observed waiting inside Manager.Remove), a fifth of the random cases get such an action too; prefix family: updates whose prefix.target is the owner's name, another managed name, a removed name or an unknown name; realcm family: the Manager on the real connection.Manager with scripted dialers (unknown dialer name fixed on re-add, two targets sharing an address one of them with an unknown dialer, dial failures then success), a sixth of the random cases run on it too, an error that nothing during the call explains is reported as a stall; blocking family: dials and stream opens that only end with their context (dial blocks until Config.Timeout for k attempts then succeeds; Remove / Reconnect / Remove+Add issued during the pending call; a second target joining the pending dial; no dial timeout: only Reconnect / Remove end it), on the injected and on the real connection manager, a fifth of the random cases have a dial timeout and blocking dials; campaign family: duplicate and chained address lines, literal receive_timeout meta values (unparsable, zero, negative, far away next to a manager-wide timeout), peer-side context.Canceled / DeadlineExceeded as Recv errors, a slow live stream under a 40 ms timeout (the model is told 'no timeout' when no Recv took a quarter of it), messages delivered just after the receive timeout fired (timer racing with a message in flight), seven quick failures in a row (each backoff gap is judged against the smallest delay possible at its position); random family: 1-3 targets per manager (shared addresses), 1-6 scripted attempts each, 0-4 control actions (Reconnect, Remove, Add, Remove+Add) at random log positions, receive timeout none / 12 ms / far away, callbacks instantaneous or 100-400 us. distinct = distinct (scripts, actions); non-trivial = some target's log has a Reset and a ConnectError")
+	meta := vh.NewMeta("corpus cases; systematic family: single-target fault scripts (dial refusal, credentials / open / send failure, multi-hop, data then error / EOF, hang with and without receive timeout, slow live stream; seven single-target fault scripts in all, the seventh with a receive timer that is armed but cannot expire), each alone and with one Reconnect, one Remove and one Remove+Add placed at every position (quick: every second position of long logs) of the script's baseline log, a third of them with slow callbacks (a callback is logged when it returns); overlap family: two scripts x a held callback (each kind, first or second occurrence) x {Add, Remove, Reconnect} of the same name issued by a second goroutine while the first one's Remove is in progress (observed waiting inside Manager.Remove), a fifth of the random cases get such an action too; prefix family: updates whose prefix.target is the owner's name, another managed name, a removed name or an unknown name; realcm family: the Manager on the real connection.Manager with scripted dialers (unknown dialer name fixed on re-add, two targets sharing an address one of them with an unknown dialer, dial failures then success), a sixth of the random cases run on it too, an error that nothing during the call explains is reported as a stall; blocking family: dials and stream opens that only end with their context (dial blocks until Config.Timeout for k attempts then succeeds; Remove / Reconnect / Remove+Add issued during the pending call; a second target joining the pending dial; no dial timeout: only Reconnect / Remove end it), on the injected and on the real connection manager, a fifth of the random cases have a dial timeout and blocking dials; campaign family: duplicate and chained address lines, literal receive_timeout meta values (unparsable, zero, negative, far away next to a manager-wide timeout), peer-side context.Canceled / DeadlineExceeded as Recv errors, a slow live stream under a 40 ms timeout (the model is told 'no timeout' when no Recv took a quarter of it), messages delivered just after the receive timeout fired (timer racing with a message in flight), Adds refused for every reason the code has (no addresses, nil request, nil target, empty name) before the first valid Add, while managed and after Remove, followed by Add / Remove / Reconnect of the same and of another name, seven quick failures in a row (each backoff gap is judged against the smallest delay possible at its position); random family: 1-3 targets per manager (shared addresses), 1-6 scripted attempts each, 0-4 control actions (Reconnect, Remove, Add, Remove+Add) at random log positions, receive timeout none / 12 ms / far away, callbacks instantaneous or 100-400 us. distinct = distinct (scripts, actions); non-trivial = some target's log has a Reset and a ConnectError")
 	meta.Samples = []interface{}{} // never null in meta.json
 	window := 30 * time.Millisecond
 	par := 8
